@@ -50,6 +50,7 @@ inductive ABeh where
   | raise              -- raises (message callback only)
   | awaitCC (k : Nat)  -- message callback only: awaits k+1 times, then returns; if it is cancelled meanwhile its clean-up
                        -- does `await app.close()` before it lets the cancellation through
+  | awaitClose (k : Nat)  -- message callback only: awaits k+1 times, then `await app.close()`, then returns
   deriving DecidableEq, Repr, Inhabited
 
 inductive AStatus where
@@ -365,6 +366,17 @@ def dispHandle2 (a : ACfg) (s : St) (v : Nat) : St :=
       if s.evt.isSome || s.appClosed then { ((s.emit2 (.closeRet (.handler v) .ok)).emit2 (.msgExit v)) with imm2 := true }
       else startClose a s .D2 (.handlerClose v)
   | .awaitCC k => s.setP .D2 (.handlerCC v k)
+  | .awaitClose k => s.setP .D2 (.handler v k)
+
+/-- the awaits of the message callback for `v` (run by `t` = `D2`) are over: an `awaitClose` callback now closes the session from
+    inside, any other returns -/
+def handlerDone (a : ACfg) (s : St) (t : ATid) (v : Nat) : St :=
+  match a.msgBeh v with
+  | .awaitClose _ =>
+      if s.evt.isSome || s.appClosed then
+        { (((s.emit2 (.closeRet (.handler v) .ok)).emit2 (.msgExit v)).setP t .dispLoop) with imm2 := true }
+      else startClose a s t (.handlerClose v)
+  | _ => { ((s.emit2 (.msgExit v)).setP t .dispLoop) with imm2 := true }
 
 def stepDisp2 (a : ACfg) (s : St) : St :=
   if s.q2Closed then s.finish2 .D2
@@ -396,7 +408,7 @@ def stepRun2 (a : ACfg) (s : St) (t : ATid) : St :=
     | .dispLoop => if t = .D2 then stepDisp2 a s else s
     | .handler v k =>
         match k with
-        | 0 => { ((s.emit2 (.msgExit v)).setP t .dispLoop) with imm2 := true }
+        | 0 => handlerDone a s t v
         | k + 1 => s.setP t (.handler v k)
     | .handlerClose v =>                                                                  -- the event was set
         { (((s.emit2 (.closeRet (.handler v) .ok)).emit2 (.msgExit v)).setP t .dispLoop) with imm2 := true }
